@@ -265,6 +265,48 @@ func checkC19(c C19Case) h.Outcome {
 			}
 		}
 	}
+	if o.Violation != nil {
+		return o
+	}
+	// ---- the returned structure is the caller's: editing it in place (filtering the method list for one IdP,
+	// sorting, re-labelling) must not show in what this or any other service provider publishes next
+	for i := range d.KeyDescriptors {
+		ms := d.KeyDescriptors[i].EncryptionMethods
+		for j := range ms {
+			ms[j].Algorithm = "http://www.w3.org/2001/04/xmlenc#tripledes-cbc"
+			ms[j].DigestMethod = &types.DigestMethod{Algorithm: "urn:edited"}
+		}
+		kept := ms[:0]
+		for j := range ms {
+			if j%2 == 0 {
+				kept = append(kept, ms[j])
+			}
+		}
+		d.KeyDescriptors[i].EncryptionMethods = kept
+		for k := range d.KeyDescriptors[i].KeyInfo.X509Data.X509Certificates {
+			d.KeyDescriptors[i].KeyInfo.X509Data.X509Certificates[k].Data = "ZWRpdGVk"
+		}
+	}
+	for j := range d.AssertionConsumerServices {
+		d.AssertionConsumerServices[j].Location = "https://edited.example/"
+	}
+	for _, again := range []*saml2.SAMLServiceProvider{sp, c.SP.Build()} {
+		var md2 *types.EntityDescriptor
+		if c.SLO {
+			md2, err = again.MetadataWithSLO(c.Hours)
+		} else {
+			md2, err = again.Metadata()
+		}
+		if err != nil {
+			o.Violation = h.V("metadata-error/second", "%v", err)
+			return o
+		}
+		b2, _ := xml.Marshal(md2)
+		if !bytes.Equal(b2, b) {
+			o.Violation = h.V("edited-result-leaks", "after the caller edited the returned descriptor in place, the next metadata differs from the first:\n first %.600s\n  next %.600s", b, b2)
+			return o
+		}
+	}
 	return o
 }
 
